@@ -48,6 +48,15 @@ let dispatch (op : string) (x : v) : v =
   | "get_av", [tab; vv; ts] ->
       let tab = to_list to_pt tab and vv = to_q vv in
       of_list (fun t -> of_q (M.get_av_m tab vv (to_q t))) (match ts with L l -> l | _ -> raise (Bad "list"))
+  | "filter_table", [table; names] ->
+      let t = to_list (to_pair to_z to_z) table in
+      of_opt (of_list (fun (k, p) -> L [of_z k; of_z p]))
+        (M.filter_table_m BZ.minus_one (M.prep_table_m BZ.minus_one t) (to_list to_z names))
+  | "filter_table_noprep", [table; names] ->
+      let t = to_list (to_pair to_z to_z) table in
+      of_opt (of_list (fun (k, p) -> L [of_z k; of_z p])) (M.filter_table_m BZ.minus_one t (to_list to_z names))
+  | "ranges", [l] ->
+      of_opt (fun ((a, b), c) -> L [of_xnum a; of_xnum b; of_xnum c]) (M.ranges_m (to_list to_xnum l))
   | "ndist", [l; step] -> of_z (M.ndist (to_q l) (to_q step))
   | "gridlog", [lo; hi; n] -> of_list of_q (M.gridlog_m (to_q lo) (to_q hi) (to_nat n))
   | "rank", [chi] -> of_list of_nat (M.rank_m (to_list to_xnum chi))
